@@ -23,18 +23,34 @@ def shards(tier, seed):
     for rule in RULES:
         for n in range(1, nmax + 1):
             for init in itertools.product((False, True), repeat=n):
-                sh.append((tier, rule, n, init))
+                sh.append((tier, rule, n, init, False))
+                if n <= 3:
+                    sh.append((tier, rule, n, init, True))
     return sh
 
 
 class Sys:
-    def __init__(self, rule, init):
+    def __init__(self, rule, init, republish=False):
         from indi.routing import Client, Router
 
         from mc.gen import drivers as D
 
         self.router = Router()
-        cls, defs = D.build_class(D.switch_spec(rule, init))
+        handlers = None
+        if republish:
+            # a synchronous Change handler on every switch that republishes the property (a driver reporting
+            # "busy" while it reconfigures the hardware): whatever it publishes must satisfy the rule too
+            from indi.device.events import Change, on
+
+            def handlers(defs):
+                els = list(defs["g"].vectors["sw"].elements.values())
+
+                def busy(self, event):
+                    event.vector.state_ = "Busy"
+
+                return {"busy_on_change": on(els, Change)(busy)}
+
+        cls, defs = D.build_class(D.switch_spec(rule, init), handlers=handlers)
         self.dev = cls(router=self.router)
         self.published = []
         outer = self
@@ -65,6 +81,8 @@ class Sys:
             ch = [one_parts.OneSwitch(name="S%d" % i, value="On" if v else "Off") for i, v in op[1]]
             msg = M.NewSwitchVector(device="DEV", name="SW", children=ch)
             self.router.process_message(msg, sender=self.client)
+        elif kind == "value-none":
+            self.vec._elements["s%d" % op[1]].value = None
         elif kind == "value":
             self.vec._elements["s%d" % op[1]].value = "On" if op[2] else "Off"
         elif kind == "bool":
@@ -83,6 +101,7 @@ def ops(n, tier):
             yield ("value", i, v)
             yield ("bool", i, v)
         yield ("selected_value", i)
+        yield ("value-none", i)  # not a switch state: it may be refused, it must not break the rule
     for r in range(0, n + 1):
         for sub in itertools.combinations(range(n), r):
             yield ("selected_values", sub)
@@ -97,11 +116,22 @@ def oracle(rule, pre, op, post, published, exc):
     """returns list of (clause, disc, what)"""
     fails = []
     kind = op[0]
-    if exc is not None:
+    if exc is not None and kind != "value-none":
         from mc import lib
 
         return [("raises", "op=%s,%s" % (kind, lib.exc_site(exc)), repr(exc))]
     npre, npost = sum(pre), sum(post)
+    if kind == "value-none":
+        # refusing None is fine; whatever happens, the rule predicates hold for the state and for every publication
+        pubs = [sum(1 for _, v in p if v == "On") for p in published]
+        d = "rule=%s,op=value-none" % rule
+        if rule == "OneOfMany" and npre == 1 and (npost != 1 or any(x != 1 for x in pubs)):
+            fails.append(("one-of-many", d, "pre %r op %r post %r published %r" % (pre, op, post, pubs)))
+        if rule == "AtMostOne" and npre <= 1 and (npost > 1 or any(x > 1 for x in pubs)):
+            fails.append(("at-most-one", d, "pre %r op %r post %r published %r" % (pre, op, post, pubs)))
+        if rule == "AnyOfMany" and any(pre[i] != post[i] for i in range(len(pre)) if i != op[1]):
+            fails.append(("any-of-many-only-named", d, "pre %r op %r post %r" % (pre, op, post)))
+        return fails
     # what the op names
     if kind == "client":
         named = [i for i, _ in op[1]]
@@ -166,12 +196,12 @@ def oracle(rule, pre, op, post, published, exc):
 
 
 def run_shard(shard):
-    tier, rule, n, init = shard
+    tier, rule, n, init, republish = shard
     res = {"states": 0, "transitions": 0, "violations": [], "samples": [], "counters": {}, "graphs": 1, "published_checked": 0}
     sig = {}
     from collections import deque
 
-    root = Sys(rule, init)
+    root = Sys(rule, init, republish)
     s0 = root.state()
     parent = {s0: None}
     fr = deque([s0])
@@ -185,7 +215,7 @@ def run_shard(shard):
             path.append(op)
         path.reverse()
         for op in allops:
-            sysm = Sys(rule, init)
+            sysm = Sys(rule, init, republish)
             for p in path:
                 sysm.apply(p)
             if sysm.state() != st:
@@ -206,7 +236,7 @@ def run_shard(shard):
                 if key in sig:
                     sig[key]["count"] += 1
                 else:
-                    sig[key] = {"clause": clause, "disc": disc, "what": what, "count": 1, "replay": {"rule": rule, "init": init, "path": path, "op": op}}
+                    sig[key] = {"clause": clause, "disc": disc, "what": what, "count": 1, "replay": {"rule": rule, "init": init, "path": path, "op": op, "republish": republish}}
             if fails and exc is not None:
                 continue
             ns = sysm.state()
@@ -242,7 +272,7 @@ def _t(x):
 
 
 def replay(rep):
-    sysm = Sys(rep["rule"], _t(rep["init"]))
+    sysm = Sys(rep["rule"], _t(rep["init"]), rep.get("republish", False))
     for p in _t(rep["path"]):
         sysm.apply(p)
     op = _t(rep["op"])
